@@ -307,6 +307,40 @@ int main(int argc, char** argv) {
         }
         if (it) ser_case(it, "big");
       }
+  } else if (!strcmp(mode, "bigshare")) {
+    /* items that are small in memory but whose encoding is huge, because one big string is a member many times over: the size
+     * crosses 2^32 (and the other powers of two on the way) without any single length doing so */
+    static const size_t shapes[][2] = {{3, 1 << 20}, {4095, 1 << 20}, {4096, 1 << 20}, {4097, (1 << 20) - 5}, {65536, 65531}, {65537, 65535}, {8192, 1 << 19}, {8193, (1 << 19) - 4}};
+    va_cap = (size_t)64 << 20; /* the multi-gigabyte output buffer is refused; what matters is how much was asked for */
+    for (unsigned si = 0; si < sizeof shapes / sizeof *shapes; si++)
+      for (int kind = 0; kind < 3; kind++) {
+        size_t c = shapes[si][0], n = shapes[si][1];
+        unsigned char* pay = malloc(n);
+        memset(pay, 0x5a, n);
+        cbor_item_t* bigs = cbor_build_bytestring(pay, n);
+        free(pay);
+        cbor_item_t* top = kind == 1 ? cbor_new_indefinite_array() : cbor_new_definite_array(c);
+        for (size_t i = 0; i < c; i++) (void)cbor_array_push(top, bigs);
+        size_t wrap = kind == 1 ? 2 : 0; /* 9f ... ff */
+        if (kind == 2) { cbor_item_t* t = cbor_build_tag(55799, top); cbor_decref(&top); top = t; wrap = 3; }
+        size_t size = cbor_serialized_size(top);
+        unsigned char* ab = NULL;
+        size_t abs_ = 0;
+        va_reset_counters();
+        long rq0 = va.requests;
+        size_t aw = cbor_serialize_alloc(top, &ab, &abs_);
+        int acalled = va.requests > rq0;
+        uint64_t areq = acalled ? va_last_req_size : 0;
+        if (ab) va_free(ab);
+        unsigned char small[64];
+        size_t sret = cbor_serialize(top, small, sizeof small);
+        fprintf(vh_out, "{\"e\":\"bigser\",\"kind\":%d", kind);
+        vh_ku64("count", c); vh_ku64("len", n); vh_kint("wrap", (long long)wrap); vh_ku64("size", size);
+        vh_kbool("acalled", acalled); vh_ku64("areq", areq); vh_ku64("aret", aw); vh_kint("small", (long long)sret);
+        fputs("}\n", vh_out);
+        cbor_decref(&top);
+        cbor_decref(&bigs);
+      }
   } else if (!strcmp(mode, "hex")) {
     FILE* f = strcmp(argv[a + 1], "-") ? fopen(argv[a + 1], "r") : stdin;
     if (!f) return 2;
